@@ -1407,6 +1407,18 @@ Proof.
   - intros l s. reflexivity.
 Qed.
 
+(* startup.rescan_env_vars, translated statement by statement (the loop is interpreted for a row that differs / does
+   not differ): a row of an attached step counts as changed exactly when the current value differs *)
+Lemma env_rescan_rule_tie :
+  gen_env_rescan_marks = (true, false) /\
+  (forall cur s r, attached (KStep, ev_step r) s = true ->
+     env_row_changed cur s r =
+     if on_eqb (cur (ev_name r)) (ev_value r) then snd gen_env_rescan_marks else fst gen_env_rescan_marks).
+Proof.
+  split; [reflexivity|]. intros cur s r Ha. unfold env_row_changed. rewrite Ha. cbn [andb].
+  destruct (on_eqb (cur (ev_name r)) (ev_value r)); reflexivity.
+Qed.
+
 (* Workflow.mark_step_pending and Executor._reset_step_to_pending are translated statement by statement
    (gen_noop.py interprets the functions; a behaviour-preserving rewrite gives the same tables): the effects per
    old state / the effects of the one transaction are those of the model. *)
